@@ -1175,6 +1175,16 @@ class Interp:
                 if f.attr == "pop" and len(e.args) < 2:
                     raise _PyRaise("KeyError")
                 return self.eval(e.args[1]) if len(e.args) > 1 else None
+        # a callable object stored in an attribute of self (an interpolator, a recorded function ...)
+        if isinstance(f, ast.Attribute) and isinstance(f.value, ast.Name) and f.value.id == "self" and f.attr not in self.methods:
+            target = self.selfattrs.get(self._mangle(f.attr))
+            if isinstance(target, PyFunc):
+                return target.f(self.eval_args(e.args), self.eval_kwargs(e.keywords))
+            if isinstance(target, Obj) and "__call__" in self.externals:
+                try:
+                    return self.externals["__call__"](target, self.eval_args(e.args), self.eval_kwargs(e.keywords))
+                except NotHandled:
+                    pass
         # closures and inlined methods
         if isinstance(f, ast.Name) and isinstance(self.env.get(f.id), Closure):
             clo = self.env[f.id]
